@@ -422,6 +422,67 @@ func runC18(r *ev.Run) {
 				}
 			}
 		}
+		// --- batches whose queries are views into ONE row-major matrix (a centroid table, a codebook), in natural order and
+		// with the middle rows exchanged / repeated / replaced by a separately allocated vector while the first and the last
+		// view stay where they are: batch[i] is the distance of queries[i], wherever its memory lies ---
+		if i%4 == 0 {
+			n := 3 + rng.IntN(5)
+			flat := make([]float32, n*dim, n*dim+rng.IntN(9))
+			for j := range flat {
+				flat[j] = float32(rng.NormFloat64())
+			}
+			copy(flat[0:dim], a)
+			rows := make([][]float32, n)
+			for k := range rows {
+				rows[k] = flat[k*dim : (k+1)*dim]
+			}
+			orders := [][][]float32{append([][]float32(nil), rows...)}
+			sw := append([][]float32(nil), rows...)
+			x, y := 1+rng.IntN(n-2), 1+rng.IntN(n-2)
+			if x == y && n > 3 {
+				y = 1 + (x % (n - 2))
+			}
+			sw[x], sw[y] = sw[y], sw[x]
+			rp := append([][]float32(nil), rows...)
+			rp[x] = rows[(x+1)%n]
+			al := append([][]float32(nil), rows...)
+			al[x] = cloneF32(b)
+			orders = append(orders, sw, rp, al)
+			for oi, qsM := range orders {
+				for name, d := range map[string]comet.Distance{"l2": l2, "l2sq": l2sq, "cos": cos} {
+					tq, tt := qsM, c
+					if name == "cos" {
+						tt = pc
+						tq = make([][]float32, len(qsM))
+						ok := true
+						for k := range qsM {
+							pq, err := cos.Preprocess(qsM[k])
+							if err != nil {
+								ok = false
+								break
+							}
+							tq[k] = pq
+						}
+						if !ok {
+							continue
+						}
+					}
+					got := d.CalculateBatch(tq, tt)
+					if len(got) != len(tq) {
+						fail(name+".batch-length", "CalculateBatch returned wrong length")
+						continue
+					}
+					for k := range tq {
+						w := float64(d.Calculate(tq[k], tt))
+						if math.Abs(float64(got[k])-w) > 2*rt*math.Max(w, 1e-30)+4*rt {
+							fail(name+".batch-differs", fmt.Sprintf("queries are views into one matrix (arrangement %d: 0 natural, 1 two middle rows exchanged, 2 a middle row repeated, 3 a middle row allocated elsewhere): batch[%d]=%g scalar=%g", oi, k, got[k], w))
+							break
+						}
+					}
+					r.Count("batches:matrix-backed-queries", 1)
+				}
+			}
+		}
 		{
 			pqs := [][]float32{pa, pb, pc}
 			got := cos.CalculateBatch(pqs, pc)
